@@ -10,7 +10,7 @@ def gen(rng, tier):
     fields = [f for f in lg.RICH_FIELDS]
     for nil_ne in (True, False):
         sch = lg.Scheme(fields, [], [], nil_ne)
-        g = lg.Gen(rng, sch, features=("index", "each", "quant", "oneof"), max_depth=3)
+        g = lg.Gen(rng, sch, features=("index", "each", "quant", "oneof", "mapbool"), max_depth=3)
         for _ in range(n // 2):
             ast = g.gen_filter()
             ctxs = [lg.gen_ctx(rng, sch, p_absent=rng.choice([0.0, 0.2, 0.5])) for _ in range(nctx)]
@@ -33,7 +33,7 @@ def distribution(lines):
 PROP = {
     "id": "C02",
     "prop_file": "theories/Props/C02.v",
-    "proof_files": [],
+    "proof_files": ["theories/Proofs/FullProofs.v", "theories/Proofs/CallProofs.v", "theories/Proofs/ExecProofs.v", "theories/Proofs/IndexProofs.v", "theories/Proofs/ValueProofs.v", "theories/Proofs/ScalarProofs.v", "theories/Proofs/RangeSetProofs.v", "theories/Proofs/C09Proofs.v"],
     "gen": gen,
     "normalize": norm_exec,
     "nontrivial": nontrivial,
